@@ -45,7 +45,7 @@ var plainKeys, plainVals = []string{"highway", "building", "name"}, []string{"a"
 // keys and values that contain the characters a writer of keys and values must not give a meaning to: '=' inside, at the
 // end and at the start, the empty value, and strings that are each other's prefix - "k" with value "v=x" and "k=v" with
 // value "x" are two different tags
-var oddKeys, oddVals = []string{"k", "k=v", "k=", "=", "k=v=x"}, []string{"v=x", "x", "=x", "", "v", "=v=x"}
+var oddKeys, oddVals = []string{"k", "k", "k=v", "k=v", "k=", "=", "k=v=x"}, []string{"v=x", "v=x", "x", "x", "=x", "", "v", "=v=x"}
 
 // the alphabet of the case being generated (set by gen)
 var tagKeys, tagVals = plainKeys, plainVals
@@ -265,7 +265,7 @@ func remapIDs(d *Doc, f func(kind string, id int64) int64) {
 func gen(t *rapid.T) Case {
 	var c Case
 	tagKeys, tagVals = plainKeys, plainVals
-	if rapid.IntRange(0, 5).Draw(t, "oddalphabet") == 4 {
+	if rapid.IntRange(0, 3).Draw(t, "oddalphabet") == 2 {
 		tagKeys, tagVals = oddKeys, oddVals
 	}
 	defer func() { tagKeys, tagVals = plainKeys, plainVals }()
